@@ -144,33 +144,8 @@ func VerifC20_History() {
 			vrt.Cover("C20.authorize")
 			c20CheckAuthorize(ps, model, pols, bits, req, "mid")
 		case 6: // marshal, reload: ids policy0.. in lexicographic order of the old ids, file name stamped
-			text := ps.MarshalCedar()
-			ps2, err := NewPolicySetFromBytes("f.cedar", text)
 			vrt.Cover("C20.reload")
-			vrt.Assert("C20.reload.parses", err == nil)
-			var old []string
-			for id := range model {
-				old = append(old, string(id))
-			}
-			sort.Strings(old)
-			model2 := map[PolicyID]int{}
-			n := 0
-			for range ps2.All() {
-				n++
-			}
-			vrt.Assert("C20.reload.count", n == len(old))
-			for i, id := range old {
-				nid := PolicyID("policy" + string(rune('0'+i)))
-				p := ps2.Get(nid)
-				vrt.Assert("C20.reload.ids-in-document-order", p != nil)
-				if p != nil {
-					vrt.Assert("C20.reload.effect", p.Effect() == pols[model[PolicyID(id)]].pol.Effect())
-					vrt.Assert("C20.reload.filename", p.Position().Filename == "f.cedar")
-				}
-				model2[nid] = model[PolicyID(id)]
-			}
-			// authorization depends only on the contents
-			c20CheckAuthorize(ps2, model2, pols, bits, req, "reloaded")
+			c20CheckReload(ps, model, pols, bits, req)
 		case 7: // JSON snapshot: ids are preserved, a fresh set decodes to the same contents
 			b, err := ps.MarshalJSON()
 			vrt.Cover("C20.json-save")
@@ -211,4 +186,40 @@ func VerifC20_History() {
 		}
 	}
 	c20CheckAuthorize(ps, model, pols, bits, req, "final")
+	// every history ends with the text emission compared against the model (a stale
+	// cache shows on the observation *after* the operation that should have invalidated it)
+	c20CheckReload(ps, model, pols, bits, req)
+}
+
+// c20CheckReload: MarshalCedar emits exactly the model's policies in lexicographic id
+// order; reloading assigns policy0.. in that order with the file name stamped, and
+// the reloaded set authorizes like the model.
+func c20CheckReload(ps *PolicySet, model map[PolicyID]int, pols []c20Pol, bits map[types.String]bool, req Request) {
+	text := ps.MarshalCedar()
+	ps2, err := NewPolicySetFromBytes("f.cedar", text)
+	vrt.Assert("C20.reload.parses", err == nil)
+	var old []string
+	for id := range model {
+		old = append(old, string(id))
+	}
+	sort.Strings(old)
+	model2 := map[PolicyID]int{}
+	n := 0
+	for range ps2.All() {
+		n++
+	}
+	vrt.Assert("C20.reload.count", n == len(old))
+	for i, id := range old {
+		nid := PolicyID("policy" + string(rune('0'+i)))
+		p := ps2.Get(nid)
+		vrt.Assert("C20.reload.ids-in-document-order", p != nil)
+		if p != nil {
+			vrt.Assert("C20.reload.effect", p.Effect() == pols[model[PolicyID(id)]].pol.Effect())
+			vrt.Assert("C20.reload.same-policy", bytes.Equal(p.MarshalCedar(), pols[model[PolicyID(id)]].pol.MarshalCedar()))
+			vrt.Assert("C20.reload.filename", p.Position().Filename == "f.cedar")
+		}
+		model2[nid] = model[PolicyID(id)]
+	}
+	// authorization depends only on the contents
+	c20CheckAuthorize(ps2, model2, pols, bits, req, "reloaded")
 }
